@@ -84,7 +84,7 @@ def reachMpFam (p : Profile) (enc peer : Codec) (f : Fam) (v6 : Bool) (attrs : L
     (ab : Bytes) (fin : List Attr) (P : AttrPart peer.twoByte ab fin)
     (hattrs : encodeAttrs p enc.twoByte attrs 0 = .ok (ab, ab.length))
     (hmp : ¬ (f = Fam.ipv4 ∧ (!enc.extNh) = true)) (hf : isIpFam f = some v6)
-    (hfa : f.afi < 65536) (hfs : f.safi < 256) (hnh : NhMp nh) (hc : CodecPair enc peer f) :
+    (hfa : f.afi < 65536) (hfs : f.safi < 256) (hnh : NhMp f nh) (hc : CodecPair enc peer f) :
     UpdFam p enc peer (.reach f (some nh) attrs es0) where
   S := fun r => IpS v6 r ∧ FitS enc.maxLen 0 (enc.addpathTx f) (23 + ab.length + 4 + (5 + nh.bytes.length)) r
   hdrop := fun _ n h => ⟨h.1.drop n, h.2.drop n⟩
@@ -130,8 +130,8 @@ def reachMpFam (p : Profile) (enc peer : Codec) (f : Fam) (v6 : Bool) (attrs : L
     have hpos : 0 < fitN enc.maxLen 0 (enc.addpathTx f) (23 + ab.length + 4 + (5 + nh.bytes.length)) r := fitN_pos_of_fitS hS.2 hr
     have hb := fitN_bound enc.maxLen 0 (enc.addpathTx f) (23 + ab.length + 4 + (5 + nh.bytes.length)) r hpos
     have h16 := hc.hmax16
-    have hnl := (nhMp_bytes nh hnh).1
-    exact reach_mp_struct f ab fin P nh.bytes _ (by rcases hnl with h | h <;> omega)
+    have hnl := (nhMp_bytes f nh hnh).1
+    exact reach_mp_struct f ab fin P nh.bytes _ (by rcases hnl with h | h | h <;> omega)
       (by rw [encRaw_mpReach]
           simp only [List.length_append, be16_length, List.length_cons, List.length_nil, mpReachVal]
           omega)
